@@ -13,7 +13,7 @@ from concurrent.futures import ThreadPoolExecutor
 
 VERIF = os.path.dirname(os.path.dirname(os.path.abspath(__file__)))
 REPO = os.environ.get('SVT_REPO', '/repo')
-CACHE = os.path.join(VERIF, '.cache')
+CACHE = os.environ.get('SVT_CACHE') or os.path.join(VERIF, '.cache')
 EXTRACTOR = os.path.join(CACHE, 'svtfacts')
 RESOURCE_DIR = '/usr/lib/llvm-14/lib/clang/14.0.6'
 LIB_DIRS = ['Source/Lib/Common', 'Source/Lib/Encoder', 'Source/Lib/Decoder']
